@@ -838,3 +838,266 @@ def walk_program_vs_bytes(program, data, cff2=False, float_tol=2.0 ** -17):
     if src.i != len(src.d):
         return "%d trailing bytes" % (len(src.d) - src.i)
     return None
+
+
+# ---------------------------------------------------------------- CFF / CFF2 table reader (bytes)
+# Written from Adobe TN5176 ("The Compact Font Format Specification") and the OpenType CFF2
+# chapter.  Only what is needed to *execute* the charstrings of a compiled table: INDEX,
+# DICT operands, Top DICT -> CharStrings / Private / FDArray / FDSelect / VarStore,
+# Private DICT -> defaultWidthX / nominalWidthX / Subrs / vsindex.  No fontTools involved, so the
+# subroutine biases are those of `subr_bias` above applied to the INDEX counts found in the bytes.
+class CFFTable:
+    def __init__(self):
+        self.cff2 = False
+        self.gsubrs = []
+        self.glyphs = []          # charstring bytes by glyph index
+        self.fd = []              # FD index by glyph index
+        self.privs = []           # dicts: default, nominal, lsubrs, vsindex
+        self.regions = None       # per vsindex: list of regions, region = [(start, peak, end) per axis]
+        self.fdselect_format = None
+
+    def run(self, gid, norm_loc=None, trace=False):
+        """Execute glyph `gid`; norm_loc = normalised coordinates (list) or None for the default."""
+        p = self.privs[self.fd[gid]] if self.privs else {"default": 0, "nominal": 0, "lsubrs": [], "vsindex": 0}
+        kw = dict(cff2=self.cff2, lsubrs=p["lsubrs"], gsubrs=self.gsubrs, trace=trace)
+        if self.cff2:
+            kw["vsindex"] = p["vsindex"]
+            regs = self.regions
+            if regs is not None:
+                kw["num_regions"] = lambda vs: len(regs[vs])
+                if norm_loc is not None:
+                    def scal(vs):
+                        out = []
+                        for reg in regs[vs]:
+                            s = 1.0
+                            for c, (a, b, e) in zip(norm_loc, reg):
+                                s *= _tent(c, a, b, e)
+                            out.append(s)
+                        return out
+                    kw["scalars"] = scal
+        else:
+            kw["default_width"] = p["default"]
+            kw["nominal_width"] = p["nominal"]
+        return Machine(**kw).run(self.glyphs[gid])
+
+
+def _tent(c, s, p, e):
+    if s > p or p > e or (s < 0 and e > 0 and p != 0) or p == 0:
+        return 1.0
+    if c < s or c > e:
+        return 0.0
+    if c == p:
+        return 1.0
+    return (c - s) / (p - s) if c < p else (e - c) / (e - p)
+
+
+def _index(d, pos, cff2):
+    """-> (list of item bytes, position after the INDEX)"""
+    if cff2:
+        if pos + 4 > len(d):
+            raise T2Error("truncated INDEX")
+        count = struct.unpack(">L", d[pos:pos + 4])[0]
+        pos += 4
+    else:
+        if pos + 2 > len(d):
+            raise T2Error("truncated INDEX")
+        count = struct.unpack(">H", d[pos:pos + 2])[0]
+        pos += 2
+    if count == 0:
+        return [], pos
+    osz = d[pos]
+    pos += 1
+    if not 1 <= osz <= 4:
+        raise T2Error("INDEX offSize %d" % osz)
+    n = (count + 1) * osz
+    raw = d[pos:pos + n]
+    if len(raw) != n:
+        raise T2Error("truncated INDEX offsets")
+    offs = [int.from_bytes(raw[i * osz:(i + 1) * osz], "big") for i in range(count + 1)]
+    base = pos + n - 1
+    if offs[0] != 1 or any(b < a for a, b in zip(offs, offs[1:])) or base + offs[-1] > len(d):
+        raise T2Error("bad INDEX offsets")
+    return [d[base + offs[i]:base + offs[i + 1]] for i in range(count)], base + offs[-1]
+
+
+def _dict(d):
+    """DICT data -> {operator: operand list} (operator = int or (12, int))."""
+    out = {}
+    st = []
+    i = 0
+    n = len(d)
+    while i < n:
+        b0 = d[i]
+        i += 1
+        if b0 <= 21 or b0 in (22, 23, 24):
+            if b0 == 12:
+                op = (12, d[i])
+                i += 1
+            else:
+                op = b0
+            if op == 23:
+                continue            # blend inside a Private DICT: operands stay for the next operator
+            out[op] = st
+            st = []
+        elif b0 == 28:
+            st.append(struct.unpack(">h", d[i:i + 2])[0])
+            i += 2
+        elif b0 == 29:
+            st.append(struct.unpack(">l", d[i:i + 4])[0])
+            i += 4
+        elif b0 == 30:
+            s = ""
+            while True:
+                b = d[i]
+                i += 1
+                done = False
+                for nib in (b >> 4, b & 15):
+                    if nib == 15:
+                        done = True
+                        break
+                    s += "0123456789.EE?-"[nib] if nib != 12 else "E-"
+                if done:
+                    break
+            try:
+                st.append(float(s) if s else 0.0)
+            except ValueError:
+                raise T2Error("bad real %r" % s)
+        elif 32 <= b0 <= 246:
+            st.append(b0 - 139)
+        elif 247 <= b0 <= 250:
+            st.append((b0 - 247) * 256 + d[i] + 108)
+            i += 1
+        elif 251 <= b0 <= 254:
+            st.append(-(b0 - 251) * 256 - d[i] - 108)
+            i += 1
+        else:
+            raise T2Error("reserved DICT byte %d" % b0)
+    return out
+
+
+def _private(d, size, off, cff2):
+    pd = _dict(d[off:off + size])
+    p = {"default": 0, "nominal": 0, "lsubrs": [], "vsindex": 0}
+    if 20 in pd and pd[20]:
+        p["default"] = pd[20][-1]
+    if 21 in pd and pd[21]:
+        p["nominal"] = pd[21][-1]
+    if 22 in pd and pd[22]:
+        p["vsindex"] = int(pd[22][-1])
+    if 19 in pd and pd[19]:
+        p["lsubrs"], _ = _index(d, off + int(pd[19][-1]), cff2)
+    for k in ("default", "nominal"):
+        v = p[k]
+        if isinstance(v, float) and v == int(v):
+            p[k] = int(v)
+    return p
+
+
+def _fdselect(d, off, nglyphs, cff2):
+    fmt = d[off]
+    if fmt == 0:
+        return list(d[off + 1:off + 1 + nglyphs]), fmt
+    if fmt == 3:
+        nr = struct.unpack(">H", d[off + 1:off + 3])[0]
+        pos = off + 3
+        rs = [struct.unpack(">HB", d[pos + 3 * i:pos + 3 * i + 3]) for i in range(nr)]
+        sentinel = struct.unpack(">H", d[pos + 3 * nr:pos + 3 * nr + 2])[0]
+    elif fmt == 4 and cff2:
+        nr = struct.unpack(">L", d[off + 1:off + 5])[0]
+        pos = off + 5
+        rs = [struct.unpack(">LH", d[pos + 6 * i:pos + 6 * i + 6]) for i in range(nr)]
+        sentinel = struct.unpack(">L", d[pos + 6 * nr:pos + 6 * nr + 4])[0]
+    else:
+        raise T2Error("FDSelect format %d" % fmt)
+    out = [0] * nglyphs
+    for k, (first, fd) in enumerate(rs):
+        last = rs[k + 1][0] if k + 1 < len(rs) else sentinel
+        for g in range(first, min(last, nglyphs)):
+            out[g] = fd
+    return out, fmt
+
+
+def _varstore(d, off):
+    base = off + 2                       # uint16 length, then the ItemVariationStore
+    fmt, rl_off, nvd = struct.unpack(">HLH", d[base:base + 8])
+    vd_offs = [struct.unpack(">L", d[base + 8 + 4 * i:base + 12 + 4 * i])[0] for i in range(nvd)]
+    rl = base + rl_off
+    nax, nreg = struct.unpack(">HH", d[rl:rl + 4])
+    regs = []
+    pos = rl + 4
+    for _ in range(nreg):
+        reg = []
+        for _a in range(nax):
+            s, p, e = struct.unpack(">hhh", d[pos:pos + 6])
+            reg.append((s / 16384.0, p / 16384.0, e / 16384.0))
+            pos += 6
+        regs.append(reg)
+    per = []
+    for o in vd_offs:
+        p0 = base + o
+        item_count, word_count, nri = struct.unpack(">HHH", d[p0:p0 + 6])
+        idx = struct.unpack(">%dH" % nri, d[p0 + 6:p0 + 6 + 2 * nri]) if nri else ()
+        per.append([regs[i] for i in idx])
+    return per
+
+
+def parse_cff(data):
+    """CFF or CFF2 table bytes -> CFFTable."""
+    d = bytes(data)
+    t = CFFTable()
+    try:
+        major, minor, hdr = d[0], d[1], d[2]
+        if major == 1:
+            names, pos = _index(d, hdr, False)
+            tops, pos = _index(d, pos, False)
+            strings, pos = _index(d, pos, False)
+            t.gsubrs, pos = _index(d, pos, False)
+            if not tops:
+                raise T2Error("no Top DICT")
+            top = _dict(tops[0])
+        elif major == 2:
+            t.cff2 = True
+            tdl = struct.unpack(">H", d[3:5])[0]
+            top = _dict(d[hdr:hdr + tdl])
+            t.gsubrs, pos = _index(d, hdr + tdl, True)
+        else:
+            raise T2Error("CFF major version %d" % major)
+        if 17 not in top:
+            raise T2Error("no CharStrings")
+        t.glyphs, _ = _index(d, int(top[17][-1]), t.cff2)
+        n = len(t.glyphs)
+        if (12, 36) in top:
+            fds, _ = _index(d, int(top[(12, 36)][-1]), t.cff2)
+            for fdd in fds:
+                fd = _dict(fdd)
+                if 18 in fd and len(fd[18]) >= 2:
+                    t.privs.append(_private(d, int(fd[18][-2]), int(fd[18][-1]), t.cff2))
+                else:
+                    t.privs.append({"default": 0, "nominal": 0, "lsubrs": [], "vsindex": 0})
+            if (12, 37) in top:
+                t.fd, t.fdselect_format = _fdselect(d, int(top[(12, 37)][-1]), n, t.cff2)
+            else:
+                t.fd = [0] * n
+        else:
+            if 18 in top and len(top[18]) >= 2:
+                t.privs.append(_private(d, int(top[18][-2]), int(top[18][-1]), False))
+            else:
+                t.privs.append({"default": 0, "nominal": 0, "lsubrs": [], "vsindex": 0})
+            t.fd = [0] * n
+        if t.cff2 and 24 in top:
+            t.regions = _varstore(d, int(top[24][-1]))
+        if any(f >= len(t.privs) for f in t.fd):
+            raise T2Error("FDSelect points past the FDArray")
+    except (IndexError, struct.error) as e:
+        raise T2Error("truncated/garbled CFF table: %s" % e)
+    return t
+
+
+def sfnt_table(data, tag):
+    """Raw bytes of table `tag` of a plain sfnt (None if absent)."""
+    n = struct.unpack(">H", data[4:6])[0]
+    for i in range(n):
+        tg, cs, off, ln = struct.unpack(">4sLLL", data[12 + 16 * i:28 + 16 * i])
+        if tg == tag:
+            return data[off:off + ln]
+    return None
